@@ -40,7 +40,7 @@ RESTART = ['vpH_raw_Restart_2']
 ELECTION = ['vpH_raw_Election_sync', 'vpH_raw_Election_async']
 ACK = ['vpH_ack_ApplyResp_L', 'vpH_ack_ApplyResp_F', 'vpH_ack_ApplyResp_L_gone', 'vpH_ack_AppendResp_F', 'vpH_ack_AppendResp_L', 'vpH_ack_AppendResp_C']
 TICK = ['vpH_tick_CheckQuorum_et2', 'vpH_tick_CheckQuorum_inactive_et2', 'vpH_tick_CheckQuorum_singleton', 'vpH_tick_Election_F', 'vpH_tick_Election_C', 'vpH_tick_Election_P', 'vpH_tick_TransferAbort_et2']
-LOG = ['vpH_log_maybeAppend_0_2_1', 'vpH_log_storageAppend_2_2', 'vpH_log_storageCompact_2', 'vpH_log_storageSnapshots_2', 'vpH_log_storageQueries_2', 'vpH_log_queries_1_1', 'vpH_log_unstableOps_1_2', 'vpH_log_maybeAppend_1_1_2']
+LOG = ['vpH_log_maybeAppend_0_2_1', 'vpH_log_slice_2_1', 'vpH_log_term_2_1', 'vpH_log_storageAppend_2_2', 'vpH_log_storageCompact_2', 'vpH_log_storageSnapshots_2', 'vpH_log_storageQueries_2', 'vpH_log_queries_1_1', 'vpH_log_unstableOps_1_2', 'vpH_log_maybeAppend_1_1_2']
 LOG_T = ['vpH_log_storageAppend_3_3', 'vpH_log_storageCompact_3', 'vpH_log_storageSnapshots_2', 'vpH_log_storageQueries_3', 'vpH_log_queries_2_2', 'vpH_log_unstableOps_2_2', 'vpH_log_maybeAppend_2_2_2']
 CONF = ['vpH_conf_Propose_2', 'vpH_conf_Propose_2_joint', 'vpH_conf_Apply_L', 'vpH_conf_Apply_F']
 SIZE = ['vpH_size_L_MsgHeartbeatResp', 'vpH_size_L_MsgProp', 'vpH_size_L_MsgAppResp']
@@ -53,7 +53,7 @@ ALL_STEP = VOTE + VRESP + HUP + HB + APP + SNAP + PROP + LEAD + LEAD_HBR + SMALL
 # quick-tier stand-ins for the three largest leader cells
 LEAD_HBR_Q = ['vpH_step_L_MsgHeartbeatResp_from2']
 LEAD_ACK_Q = ['vpH_step_L_MsgAppResp_from1', 'vpH_step_L_MsgAppResp_from2_lean']
-PROP_Q = step('FCP', 'MsgProp') + ['vpH_step_L_MsgProp_lean']
+PROP_Q = step('FCP', 'MsgProp') + ['vpH_step_L_MsgProp_lean', 'vpH_step_L_MsgProp_bytes']
 
 specs = {}
 
